@@ -568,6 +568,16 @@ class Engine:
             is_not = isinstance(test.ops[0], ast.IsNot)
             if isinstance(v.ty, TOpt) and (is_not == positive) and isinstance(test.ops[0], (ast.Is, ast.IsNot)):
                 out[test.left.id] = Val(v.ty.elem, v.ty.val(v.t), v.mut)
+        elif isinstance(test, ast.Compare) and len(test.ops) == 1 and isinstance(test.left, ast.Attribute) \
+                and _path_of(test.left) is not None and isinstance(test.comparators[0], ast.Constant) \
+                and test.comparators[0].value is None and isinstance(test.ops[0], (ast.Is, ast.IsNot)):
+            # `obj.attr is (not) None` on an Optional field: the attribute path is narrowed (see e_Attribute)
+            try:
+                v = self.eval(test.left, st)
+            except Unsupported:
+                v = None
+            if v is not None and isinstance(v.ty, TOpt) and (isinstance(test.ops[0], ast.IsNot) == positive):
+                out[_path_of(test.left)] = Val(v.ty.elem, v.ty.val(v.t), v.mut)
         if isinstance(test, ast.Name) and test.id in st.env and positive and isinstance(st.env[test.id].ty, TOpt):
             v = st.env[test.id]  # `if x:` on an Optional: a truthy x is not None
             out[test.id] = Val(v.ty.elem, v.ty.val(v.t), v.mut)
@@ -667,6 +677,8 @@ class Engine:
         self._last_dict_order = None
         n, elem = self.eval_iter(node.iter, st)
         dorder = self._last_dict_order  # (captured now: loops in the body establish their own)
+        if dorder is not None:
+            st.env[f"order_of_loop{ordinal}"] = dorder  # ghost local: the enumeration of the keys this loop follows
         n_s = z3.simplify(n)
         spec = self.c.loops.get(ordinal)
         if spec is None or spec.unroll is not None:
@@ -1235,6 +1247,7 @@ class Engine:
         # otherwise the value semantics of and/or are only modelled for boolean contexts
         terms = []
         saved = list(st.guards)
+        saved_env = dict(st.env)
         for e in node.values:
             t = self.truthy(self.eval(e, st))
             terms.append(t)
@@ -1248,7 +1261,12 @@ class Engine:
             if decided:
                 break  # short circuit: the remaining operands are not evaluated (they may not even be defined)
             st.guards.append(t if isinstance(node.op, ast.And) else z3.Not(t))
+            # the later operands are evaluated knowing how this one came out (`x is None or f(x)`: x is not None in f(x))
+            for nm, rv in self.refinements(e, st, isinstance(node.op, ast.And)).items():
+                st.env[nm] = rv
         st.guards[:] = saved
+        st.env.clear()
+        st.env.update(saved_env)
         return Val(TBool, z3.And(*terms) if isinstance(node.op, ast.And) else z3.Or(*terms))
 
     def e_IfExp(self, node, st):
@@ -1577,7 +1595,11 @@ class Engine:
         terms = []
         saved = list(st.guards)
         for op, rn in zip(node.ops, node.comparators):
-            right = self.eval(rn, st)
+            right = None
+            if isinstance(op, (ast.Eq, ast.NotEq)) and isinstance(left.ty, TSet):
+                right = self._as_set(rn, st)  # (a keys view compared with a set: the set of the keys)
+            if right is None:
+                right = self.eval(rn, st)
             t = self.compare(op, left, right, st, node)
             terms.append(t)
             st.guards.append(t)
@@ -1617,6 +1639,8 @@ class Engine:
                     b = self.coerce(b, a.ty, st, node)
             if isinstance(a.ty, TSeq) and isinstance(b.ty, TSeq):
                 r = self.seq_eq(a, b)
+            elif isinstance(a.ty, TSet) and isinstance(b.ty, TSet) and a.ty.key.name != b.ty.key.name:
+                r = self._set_eq_across(a, b, node)
             else:
                 a, b = self.unify(a, b, st, node)
                 r = a.t == b.t
@@ -1635,6 +1659,23 @@ class Engine:
         if isinstance(op, ast.GtE):
             return x >= y
         raise Unsupported("comparison operator", node)
+
+    def _set_eq_across(self, a: Val, b: Val, node):
+        """Equality of a set of union values U and a set of values of one alternative A of U (e.g. {str | tuple} vs a
+        dict's str keys): equal iff every member of the first is an A that is in the second, and every member of the second
+        is in the first - Python compares by membership, a tuple is never equal to a str."""
+        if isinstance(b.ty.key, TUnion):
+            a, b = b, a
+        if not isinstance(a.ty.key, TUnion):
+            raise Unsupported("comparison of sets of unrelated sorts", node)
+        tags = [t for t, aty in a.ty.key.alts if aty is not None and aty.name == b.ty.key.name]
+        if len(tags) != 1:
+            raise Unsupported("comparison of sets of unrelated sorts", node)
+        u = a.ty.key
+        x = z3.Const(fresh_name("sx"), u.sort())
+        return z3.ForAll([x], z3.Select(a.ty.mem(a.t), x) == z3.And(
+            u.is_(tags[0], x), z3.Select(b.ty.mem(b.t), u.get(tags[0], x))),
+            patterns=[z3.Select(a.ty.mem(a.t), x), u.is_(tags[0], x)])  # (either term makes the instance available)
 
     def seq_eq(self, a: Val, b: Val):
         """Python == on sequences is extensional; the datatype term equality is not (junk beyond len)."""
